@@ -360,6 +360,33 @@ func c13do(b *node.Browser, kind, a, bb string, vals map[string]interface{}) (re
 		}
 		_, err = nodeutil.WriteJSON(sel)
 		return outcome(err)
+	case "supsert":
+		// a document (a) written into an empty struct-backed store, which must still be readable afterwards
+		if c13seMod == nil {
+			m, err := parser.LoadModuleFromString(nil, `module se { namespace "urn:se"; prefix se; revision 2020-01-01; list l { key k; leaf k { type string; } leaf v { type int32; } } }`)
+			if err != nil {
+				return "PANIC:se-module-does-not-load"
+			}
+			c13seMod = m
+		}
+		for _, ptr := range []bool{false, true} {
+			item := reflect.StructOf([]reflect.StructField{{Name: "K", Type: reflect.TypeOf("")}, {Name: "V", Type: reflect.TypeOf(int64(0))}})
+			var elem reflect.Type = item
+			if ptr {
+				elem = reflect.PtrTo(item)
+			}
+			root := reflect.New(reflect.StructOf([]reflect.StructField{{Name: "L", Type: reflect.SliceOf(elem)}}))
+			n, err := nodeutil.ReadJSON(a)
+			if err != nil {
+				return "error"
+			}
+			br := node.NewBrowser(c13seMod, nodeutil.ReflectChild(root.Interface()))
+			uerr := br.Root().UpsertFrom(n)
+			if _, rerr := nodeutil.WriteJSON(br.Root()); rerr != nil && uerr == nil {
+				return "PANIC:accepted_but_the_store_cannot_be_read_afterwards:" + strings.ReplaceAll(short(rerr.Error()), " ", "_")
+			}
+		}
+		return "ok"
 	case "setvalue":
 		sel, err := b.Root().Find(a)
 		if err != nil || sel == nil {
@@ -749,6 +776,9 @@ func C13(c *core.Ctx) {
 		}
 		for _, p := range []string{"w=full/bi", "w=full/ll", "w=full/c/y", "w=full/k", "w=full/c", "w=full", "w", "w=full/an", "w=half/c1", "w=full/c2", "w=full/c2/z", "two=p,1/three=x1,y1,1", "two=p,1/three=x1,y1,1/z", "c/in=1,true", "c/in=1,true/k2", "c", "w=full/c/l=1", "w=full/c/l=1/n", "w=full/c/l", "w=bare/c"} {
 			reqs = append(reqs, c13req{Kind: "jdel", A: p, Desc: "Delete on a selection of every kind of node"})
+		}
+		for _, doc := range []string{`{"l":[{"v":1}]}`, `{"l":[{"k":"a"},{"v":2}]}`, `{"l":[{"k":"a","v":1},{"k":"b"}]}`, `{"l":[{}]}`, `{"l":[{"k":null,"v":1}]}`} {
+			reqs = append(reqs, c13req{Kind: "supsert", A: doc, Desc: "entries without their key into a struct-backed store"})
 		}
 		for _, key2 := range []string{"", "m", "b"} {
 			for _, p := range []string{"l", "l=a", "l=b", "l=", "l=zz", "l?where=v%3D5", "l=a/v"} {
